@@ -114,14 +114,14 @@ func (b *backend) materialise(t tree) {
 }
 
 type result struct {
-	OK    bool   `json:"ok"`
-	Kind  string `json:"kind,omitempty"`
-	Err   string `json:"err,omitempty"`
-	Val   string `json:"val"`
-	Blown bool   `json:"budget_exhausted,omitempty"`
+	OK    bool     `json:"ok"`
+	Kind  string   `json:"kind,omitempty"`
+	Err   string   `json:"err,omitempty"`
+	Val   string   `json:"val"`
+	Blown bool     `json:"budget_exhausted,omitempty"`
 	Leak  []string `json:"open_handles,omitempty"`
-	Ops   int64  `json:"ops"`
-	Hung  bool   `json:"hung,omitempty"`
+	Ops   int64    `json:"ops"`
+	Hung  bool     `json:"hung,omitempty"`
 }
 
 var kindTable = map[string]error{"not-found": commonerrors.ErrNotFound, "invalid": commonerrors.ErrInvalid, "exists": commonerrors.ErrExists, "conflict": commonerrors.ErrConflict,
@@ -380,6 +380,14 @@ func genCall(rng *rand.Rand) call {
 		if rng.IntN(6) == 0 {
 			c.B = c.A
 		}
+		if rng.IntN(8) == 0 {
+			// a destination one or two levels beneath the source (with intermediate directories that may be missing)
+			segs := []string{"a", "b", "c.txt"}
+			c.B = strings.TrimSuffix(c.A, "/") + "/" + segs[rng.IntN(3)]
+			if rng.IntN(3) != 0 {
+				c.B += "/" + segs[rng.IntN(3)]
+			}
+		}
 	case "MkDir":
 		if rng.IntN(25) == 0 {
 			c.A = ""
@@ -536,7 +544,7 @@ func runProgram(r *vrun.Run, p program, scratch string) {
 		}
 		witness := func() map[string]any {
 			return map[string]any{"program": p, "failing_call_index": i, "call": c, "model_state_before": model.String(), "expectation": describe(exp),
-				"os": map[string]any{"result": ro, "tree_before": preOS.String(), "tree_after": postOS.String()},
+				"os":  map[string]any{"result": ro, "tree_before": preOS.String(), "tree_after": postOS.String()},
 				"mem": map[string]any{"result": rm, "tree_before": preMem.String(), "tree_after": postMem.String()}}
 		}
 		// ---- sentence two: invariants, whatever the arguments
@@ -586,6 +594,46 @@ func runProgram(r *vrun.Run, p program, scratch string) {
 				sg["change"] = strings.Fields(changed[0])[0]
 				r.Violation(sg, fmt.Sprintf("%s(%q,%q) on %s: %s", c.Op, c.A, c.B, x.b.name, strings.Join(changed[:min(3, len(changed))], "; ")), witness())
 				stop = true
+			}
+			// source and destination overlap, the destination lying inside the source: a call which refuses such
+			// arguments has changed nothing at all (the source is everything the destination could be created in)
+			same := x.pre.String() == x.post.String()
+			if !same && c.Op == "CopyToDirectory" {
+				// mkdir -p of the destination directory comes first (as in `mkdir -p b && cp -r a b`): it and its ancestors may have been created
+				same = true
+				b2 := cl(c.B)
+				for q, n := range x.post {
+					if m, ok := x.pre[q]; ok {
+						if m.Dir != n.Dir || m.Data != n.Data {
+							same = false
+						}
+						continue
+					}
+					if !(n.Dir && (q == b2 || under(b2, q))) {
+						same = false
+					}
+				}
+				for q := range x.pre {
+					if _, ok := x.post[q]; !ok {
+						same = false
+					}
+				}
+			}
+			srcIsDir := false
+			if n, ok := x.pre[a]; ok && n.Dir {
+				srcIsDir = true // a destination beneath a FILE is a kind conflict, not an overlap
+			}
+			if !srcIsDir || x.pre.prefixConflict(cl(c.B)) || x.pre.isFile(cl(c.B)) {
+				same = true // a file on the way to the destination: kind conflict
+				srcIsDir = false
+			}
+			if !x.res.OK && c.Ctx == 0 && strings.Contains(exp.Unspecified, "inside the source") && !same {
+				r.Obs("refused_calls_into_their_own_source_judged", 1)
+				sg := sig(x.b.name, "refused-call-into-its-own-source-changed-it")
+				r.Violation(sg, fmt.Sprintf("%s(%q,%q) on %s failed (%s) but the tree changed: before %s after %s", c.Op, c.A, c.B, x.b.name, x.res.Kind, x.pre.String(), x.post.String()), witness())
+				stop = true
+			} else if !x.res.OK && c.Ctx == 0 && srcIsDir && strings.Contains(exp.Unspecified, "inside the source") {
+				r.Obs("refused_calls_into_their_own_source_judged", 1)
 			}
 			// a copy never changes its source (also when they overlap): pre-existing source entries outside the destination subtree
 			if c.Op == "Copy" || c.Op == "CopyToFile" || c.Op == "CopyToDirectory" {
